@@ -11,6 +11,8 @@ import (
 type valCase struct {
 	cmd   string
 	v     Rec
+	gen   func() Rec // big values are built when they are run
+	di    int        // index in domain(cmd)
 	label string
 	// lenient: the value is outside a limit that btcd (not the protocol
 	// documents) imposes, so btcd may refuse to encode or decode it; if it
@@ -229,20 +231,28 @@ func nOuts(n int) []Rec {
 	return l
 }
 
-// txBoundary: counts and lengths at the CompactSize boundaries.
-func txBoundary() []Rec {
-	var out []Rec
+// txBoundary: counts and lengths at the CompactSize boundaries (generators,
+// the values are large).
+func txBoundary(full bool) []func() Rec {
+	var out []func() Rec
 	for _, n := range []int{0xfc, 0xfd, 0xffff, 0x10000} {
-		out = append(out, txRec(1, nIns(n, nil), nOuts(1), 0))
-		out = append(out, txRec(1, nIns(n, [][]byte{{1}}), nOuts(1), 0))
-		out = append(out, txRec(1, nIns(1, nil), nOuts(n), 0))
-		out = append(out, txRec(2, nIns(1, items(n, 0)), nOuts(1), 0))
-		out = append(out, txRec(2, nIns(2, items(n, 1)), nOuts(0), 7))
+		n := n
+		out = append(out,
+			func() Rec { return txRec(1, nIns(n, nil), nOuts(1), 0) },
+			func() Rec { return txRec(1, nIns(1, nil), nOuts(n), 0) },
+			func() Rec { return txRec(2, nIns(1, items(n, 0)), nOuts(1), 0) })
+		if full || n < 0xffff {
+			out = append(out,
+				func() Rec { return txRec(1, nIns(n, [][]byte{{1}}), nOuts(1), 0) },
+				func() Rec { return txRec(2, nIns(2, items(n, 1)), nOuts(0), 7) })
+		}
 	}
 	for _, l := range []int{0xffff, 0x10000} {
-		out = append(out, txRec(1, []Rec{txin(h1, 0, pattern(l, 0, 1), 0, nil)}, nOuts(1), 0))
-		out = append(out, txRec(1, nIns(1, nil), []Rec{txout(1, pattern(l, 0, 1))}, 0))
-		out = append(out, txRec(1, nIns(1, [][]byte{pattern(l, 0, 1)}), nOuts(1), 0))
+		l := l
+		out = append(out,
+			func() Rec { return txRec(1, []Rec{txin(h1, 0, pattern(l, 0, 1), 0, nil)}, nOuts(1), 0) },
+			func() Rec { return txRec(1, nIns(1, nil), []Rec{txout(1, pattern(l, 0, 1))}, 0) },
+			func() Rec { return txRec(1, nIns(1, [][]byte{pattern(l, 0, 1)}), nOuts(1), 0) })
 	}
 	return out
 }
@@ -278,13 +288,15 @@ func addrV2Rec(time, services uint64, id uint64, addr []byte, port uint64) Rec {
 var compactDom = []uint64{0, 1, 0xfc, 0xfd, 0xffff, 0x10000, 0xffffffff, 0x100000000, 0xffffffffffffffff}
 
 // domain returns the value cases of one message type.
-func domain(cmd string, full bool) []valCase {
+func domain(cmd string, full, withBig bool) []valCase {
 	var out []valCase
 	add := func(label string, v Rec) { out = append(out, valCase{cmd: cmd, v: v, label: label}) }
 	addSeed := func(label string, v Rec) { out = append(out, valCase{cmd: cmd, v: v, label: label, seed: true}) }
 	addLenient := func(label string, v Rec) { out = append(out, valCase{cmd: cmd, v: v, label: label, lenient: true}) }
-	addBig := func(label string, v Rec, lenient bool) {
-		out = append(out, valCase{cmd: cmd, v: v, label: label, lenient: lenient, big: true})
+	addBig := func(label string, gen func() Rec, lenient bool) {
+		if withBig {
+			out = append(out, valCase{cmd: cmd, gen: gen, label: label, lenient: lenient, big: true})
+		}
 	}
 	u32 := []uint64{0, 1, 0x7fffffff, 0x80000000, 0xffffffff}
 	u64 := []uint64{0, 1, 0x7fffffffffffffff, 0x8000000000000000, 0xffffffffffffffff}
@@ -368,14 +380,14 @@ func domain(cmd string, full bool) []valCase {
 			for i := range l {
 				l[i] = naRec(uint64(i), uint64(i)*3, pattern(16, byte(i), 1), uint64(i&0xffff))
 			}
-			addBig("count", Rec{"addr_list": l}, false)
+			addBig("count", func() Rec { return Rec{"addr_list": l} }, false)
 		}
 		{
 			l := make([]Rec, 1001)
 			for i := range l {
 				l[i] = naDom[i%4]
 			}
-			addBig("count-max+1", Rec{"addr_list": l}, true)
+			addBig("count-max+1", func() Rec { return Rec{"addr_list": l} }, true)
 		}
 
 	case "addrv2":
@@ -408,14 +420,14 @@ func domain(cmd string, full bool) []valCase {
 				a := legal[i%4]
 				l[i] = addrV2Rec(uint64(i), uint64(i), a.id, a.addr, uint64(i&0xffff))
 			}
-			addBig("count", Rec{"addr_list": l}, false)
+			addBig("count", func() Rec { return Rec{"addr_list": l} }, false)
 		}
 		{
 			l := make([]Rec, 1001)
 			for i := range l {
 				l[i] = addrV2Rec(1, 1, 1, []byte{1, 2, 3, 4}, 1)
 			}
-			addBig("count-max+1", Rec{"addr_list": l}, true)
+			addBig("count-max+1", func() Rec { return Rec{"addr_list": l} }, true)
 		}
 
 	case "getblocks", "getheaders":
@@ -429,9 +441,9 @@ func domain(cmd string, full bool) []valCase {
 			}
 		}
 		for _, n := range []int{0xfc, 0xfd, 500} { // MaxBlockLocatorsPerMsg = 500
-			addBig("count", Rec{"version": uint64(70016), "locator": hashN(n), "hash_stop": h0}, false)
+			addBig("count", func() Rec { return Rec{"version": uint64(70016), "locator": hashN(n), "hash_stop": h0} }, false)
 		}
-		addBig("count-max+1", Rec{"version": uint64(70016), "locator": hashN(501), "hash_stop": h0}, true)
+		addBig("count-max+1", func() Rec { return Rec{"version": uint64(70016), "locator": hashN(501), "hash_stop": h0} }, true)
 
 	case "inv", "getdata", "notfound":
 		for _, n := range []int{0, 1, 2, 3} {
@@ -442,9 +454,9 @@ func domain(cmd string, full bool) []valCase {
 			}
 		}
 		for _, n := range []int{0xfc, 0xfd, 50000} { // MaxInvPerMsg = 50000
-			addBig("count", Rec{"inventory": invList(n, invTypes)}, false)
+			addBig("count", func() Rec { return Rec{"inventory": invList(n, invTypes)} }, false)
 		}
-		addBig("count-max+1", Rec{"inventory": invList(50001, invTypes)}, true)
+		addBig("count-max+1", func() Rec { return Rec{"inventory": invList(50001, invTypes)} }, true)
 
 	case "headers":
 		for _, n := range []int{0, 1, 2, 3} {
@@ -462,14 +474,14 @@ func domain(cmd string, full bool) []valCase {
 			for i := range l {
 				l[i] = hdrRec(uint64(i), hashN(1)[0], h1, uint64(i), 0x1d00ffff, uint64(i)*7)
 			}
-			addBig("count", Rec{"headers": l}, false)
+			addBig("count", func() Rec { return Rec{"headers": l} }, false)
 		}
 		{
 			l := make([]Rec, 2001)
 			for i := range l {
 				l[i] = hdrDom[i%4]
 			}
-			addBig("count-max+1", Rec{"headers": l}, true)
+			addBig("count-max+1", func() Rec { return Rec{"headers": l} }, true)
 		}
 
 	case "ping", "pong":
@@ -515,12 +527,12 @@ func domain(cmd string, full bool) []valCase {
 			}
 		}
 		for _, n := range []int{0xfc, 0xfd, 0xffff, 0x10000} {
-			addBig("hashes", Rec{"header": hdrDom[0], "total_transactions": uint64(n), "hashes": hashN(n), "flags": pattern(n/8+1, 0, 1)}, false)
+			addBig("hashes", func() Rec { return Rec{"header": hdrDom[0], "total_transactions": uint64(n), "hashes": hashN(n), "flags": pattern(n/8+1, 0, 1)} }, false)
 		}
 		// maxTxPerBlock = 4000000/10+1 = 400001, maxFlagsPerMerkleBlock = 50000
-		addBig("hashes-max", Rec{"header": hdrDom[0], "total_transactions": uint64(400001), "hashes": hashN(400001), "flags": pattern(50000, 0, 1)}, false)
-		addBig("hashes-max+1", Rec{"header": hdrDom[0], "total_transactions": uint64(400002), "hashes": hashN(400002), "flags": []byte{1}}, true)
-		addBig("flags-max+1", Rec{"header": hdrDom[0], "total_transactions": uint64(1), "hashes": hashN(1), "flags": pattern(50001, 0, 1)}, true)
+		addBig("hashes-max", func() Rec { return Rec{"header": hdrDom[0], "total_transactions": uint64(400001), "hashes": hashN(400001), "flags": pattern(50000, 0, 1)} }, false)
+		addBig("hashes-max+1", func() Rec { return Rec{"header": hdrDom[0], "total_transactions": uint64(400002), "hashes": hashN(400002), "flags": []byte{1}} }, true)
+		addBig("flags-max+1", func() Rec { return Rec{"header": hdrDom[0], "total_transactions": uint64(1), "hashes": hashN(1), "flags": pattern(50001, 0, 1)} }, true)
 
 	case "reject":
 		cmds := [][]byte{nil, []byte("tx"), []byte("block"), []byte("version"), []byte("abcdefghijkl"), pattern(0xfd, 0x61, 0)}
@@ -539,12 +551,12 @@ func domain(cmd string, full bool) []valCase {
 			add("ccode", Rec{"message": []byte("tx"), "ccode": code, "reason": []byte("r"), "data": h1})
 		}
 		for _, n := range []int{0xffff, 0x10000} {
-			addBig("reason-len", Rec{"message": []byte("block"), "ccode": uint64(1), "reason": pattern(n, 0, 1), "data": h1}, false)
-			addBig("message-len", Rec{"message": pattern(n, 0x61, 0), "ccode": uint64(1), "reason": nil, "data": h0}, false)
+			addBig("reason-len", func() Rec { return Rec{"message": []byte("block"), "ccode": uint64(1), "reason": pattern(n, 0, 1), "data": h1} }, false)
+			addBig("message-len", func() Rec { return Rec{"message": pattern(n, 0x61, 0), "ccode": uint64(1), "reason": nil, "data": h0} }, false)
 		}
 		// ReadVarString accepts up to MaxMessagePayload = 32 MiB
-		addBig("reason-len-max", Rec{"message": []byte("x"), "ccode": uint64(1), "reason": make([]byte, 32<<20), "data": h0}, false)
-		addBig("reason-len-max+1", Rec{"message": []byte("x"), "ccode": uint64(1), "reason": make([]byte, 32<<20+1), "data": h0}, true)
+		addBig("reason-len-max", func() Rec { return Rec{"message": []byte("x"), "ccode": uint64(1), "reason": make([]byte, 32<<20), "data": h0} }, false)
+		addBig("reason-len-max+1", func() Rec { return Rec{"message": []byte("x"), "ccode": uint64(1), "reason": make([]byte, 32<<20+1), "data": h0} }, true)
 
 	case "feefilter":
 		for _, v := range u64 {
@@ -583,9 +595,9 @@ func domain(cmd string, full bool) []valCase {
 			}
 		}
 		for _, n := range []int{0xffff, 0x10000, 256 * 1024} { // MaxCFilterDataSize = 256 KiB
-			addBig("len", Rec{"filter_type": uint64(0), "block_hash": h1, "filter_bytes": pattern(n, 1, 1)}, false)
+			addBig("len", func() Rec { return Rec{"filter_type": uint64(0), "block_hash": h1, "filter_bytes": pattern(n, 1, 1)} }, false)
 		}
-		addBig("len-max+1", Rec{"filter_type": uint64(0), "block_hash": h1, "filter_bytes": pattern(256*1024+1, 1, 1)}, true)
+		addBig("len-max+1", func() Rec { return Rec{"filter_type": uint64(0), "block_hash": h1, "filter_bytes": pattern(256*1024+1, 1, 1)} }, true)
 
 	case "cfheaders":
 		for _, ft := range []uint64{0, 0xff} {
@@ -598,9 +610,9 @@ func domain(cmd string, full bool) []valCase {
 			}
 		}
 		for _, n := range []int{0xfc, 0xfd, 2000} { // MaxCFHeadersPerMsg = 2000
-			addBig("count", Rec{"filter_type": uint64(0), "stop_hash": h1, "previous_filter_header": h0, "filter_hashes": hashN(n)}, false)
+			addBig("count", func() Rec { return Rec{"filter_type": uint64(0), "stop_hash": h1, "previous_filter_header": h0, "filter_hashes": hashN(n)} }, false)
 		}
-		addBig("count-max+1", Rec{"filter_type": uint64(0), "stop_hash": h1, "previous_filter_header": h0, "filter_hashes": hashN(2001)}, true)
+		addBig("count-max+1", func() Rec { return Rec{"filter_type": uint64(0), "stop_hash": h1, "previous_filter_header": h0, "filter_hashes": hashN(2001)} }, true)
 
 	case "cfcheckpt":
 		for _, ft := range []uint64{0, 0xff} {
@@ -612,9 +624,9 @@ func domain(cmd string, full bool) []valCase {
 			}
 		}
 		for _, n := range []int{0xfc, 0xfd, 0xffff, 0x10000, 100000} { // maxCFHeadersLen = 100000
-			addBig("count", Rec{"filter_type": uint64(0), "stop_hash": h1, "filter_headers": hashN(n)}, false)
+			addBig("count", func() Rec { return Rec{"filter_type": uint64(0), "stop_hash": h1, "filter_headers": hashN(n)} }, false)
 		}
-		addBig("count-max+1", Rec{"filter_type": uint64(0), "stop_hash": h1, "filter_headers": hashN(100001)}, true)
+		addBig("count-max+1", func() Rec { return Rec{"filter_type": uint64(0), "stop_hash": h1, "filter_headers": hashN(100001)} }, true)
 
 	case "tx":
 		for i, t := range smallTxs() {
@@ -625,8 +637,9 @@ func domain(cmd string, full bool) []valCase {
 		for _, t := range txDomain(full) {
 			add("product", Rec{"tx": t})
 		}
-		for _, t := range txBoundary() {
-			addBig("boundary", Rec{"tx": t}, false)
+		for _, g := range txBoundary(full) {
+			g := g
+			addBig("boundary", func() Rec { return Rec{"tx": g()} }, false)
 		}
 
 	case "block":
@@ -643,7 +656,7 @@ func domain(cmd string, full bool) []valCase {
 			for i := range l {
 				l[i] = stx[i%3]
 			}
-			addBig("count", Rec{"header": hdrDom[0], "txns": l}, false)
+			addBig("count", func() Rec { return Rec{"header": hdrDom[0], "txns": l} }, false)
 		}
 	}
 	return out
